@@ -365,7 +365,7 @@ package scanner
 //@   requires forall i :: 0 <= i && i < len(ii) ==> ii[i].scanner != nil
 //@   ensures len(ret.stack) == len(ii)
 //@   ensures forall k :: 0 <= k && k < len(ii) ==> ret.stack[k].file == ii[k].scanner.file && ret.stack[k].at == ii[k].at
-//@   loop 1 invariant 0 - 1 <= rangeindex && rangeindex < rangelen || rangelen == 0 && rangeindex == 0 - 1
+//@   loop 1 invariant 0 - 1 <= rangeindex && rangeindex <= rangelen - 1
 //@   loop 1 invariant rangelen == len(ii) && len(d.stack) == rangeindex + 1
 //@   loop 1 invariant forall k :: 0 <= k && k <= rangeindex ==> d.stack[k].file == ii[k].scanner.file && d.stack[k].at == ii[k].at
 //@   loop 1 decreases rangelen - rangeindex
